@@ -70,6 +70,18 @@ func (rt *RT) cbNested(id int, spec *Reenter, cbErr error) {
 	if spec == nil || cbErr != nil || rt.cbCalls[id] != 1 || rt.scopeOf == nil {
 		return
 	}
+	// not while a panic of the function itself is in flight (dig calls the
+	// callback from a deferred function, with a nil Error when it does not
+	// recover the panic): a second panic raised under the nested Invoke would
+	// replace the first one on its way to the caller
+	for j := len(rt.Log) - 1; j >= 0; j-- {
+		if ev := rt.Log[j]; ev.Kind == EvExit && ev.Fn == id {
+			if ev.Outcome != FaultOK {
+				return
+			}
+			break
+		}
+	}
 	var act []int
 	for f, n := range rt.active {
 		if n > 0 {
